@@ -103,8 +103,10 @@ def run(tier):
                              indented_payload, skin={"other_payload": True}, env={"GIT_PREFIX": "sub/"}))
     # the default commit style (raw): the commit line and what follows it are written straight to the output - after
     # everything that is still buffered
-    plans.append(stream.Plan("rs+commit-raw", [h for h in hists + cov if any(l["c"] == "commit" and i > 0 and h[i - 1]["c"] in ("minus", "plus", "zero", "nonl", "other", "blank")
-                                                          for i, l in enumerate(h))][:1500 if tier == "quick" else 20000],
+    after = lambda h, cs: any(l["c"] == "commit" and i > 0 and h[i - 1]["c"] in cs for i, l in enumerate(h))
+    craw = ([h for h in cov if after(h, ("minus", "plus"))] + [h for h in cov if after(h, ("zero", "nonl"))][:400]
+            + [h for h in hists + cov if after(h, ("other", "blank"))][:400])
+    plans.append(stream.Plan("rs+commit-raw", craw[:2500 if tier == "quick" else 20000],
                              ["--commit-style", "raw"], {"commitRaw": True}))
     mstat = tlc.run_tlc("MC_Stream", cfg="MC_Stream_stat", workers=8, coverage=False, heap="8g", timeout=1800)
     tlc.require_ok(mstat, "MC_Stream_stat")
